@@ -1,11 +1,11 @@
 (* C10 — soundness of the boolean polynomial checks of Model.C10_IsoPoly: what "all_equal ... = true" (decided by
-   vm_compute on the polynomials regenerated from the source) means at every rational point and at every real point
-   (reference point AND node coordinates), and the bridge to true derivatives (Base.C09_PolyReal, Coquelicot). *)
-From Coq Require Import List Arith Bool Lia QArith Reals.
-From Coquelicot Require Import Coquelicot.
+   vm_compute on the polynomials regenerated from the source) means at every rational point (reference point AND node
+   coordinates); evaluation in the canonical rationals Qc (a field with Leibniz equality) for the cofactor identities.
+   The real-number statements (true derivatives, Coquelicot) are in Proofs.C10_IsoPolyReal. *)
+From Coq Require Import List Arith Bool Lia QArith Qcanon Ring_theory Setoid.
 Import ListNotations.
-Require Import Base.C09_Poly Base.C09_PolyQ Base.C09_PolyReal Base.C20_Ring Model.C10_IsoPoly.
-Local Close Scope R_scope.
+Require Import Base.C09_Poly Base.C09_PolyQ Base.C20_Ring Model.C10_IsoPoly.
+Local Close Scope Qc_scope.
 Local Close Scope Q_scope.
 
 Lemma all_equal_In l : all_equal l = true -> forall p q, In (p, q) l -> peqb p q = true.
@@ -18,12 +18,6 @@ Proof. intros Hi Hj. unfold idx2. apply in_prod; apply in_seq; lia. Qed.
 Definition J_derivative_of_F_Q (d : nat) (phis : list poly) (dphis : list (list poly)) : Prop :=
   forall i j, i < d -> j < d -> forall pt : nat -> Q,
     Qeq (qeval (pderiv j (isoF_poly d phis i)) pt) (qeval (isoJ_poly d dphis i j) pt).
-
-(* over the reals: the delivered J_ij is the partial derivative of the delivered F_i with respect to the reference
-   coordinate X_j, at every real reference point and for every real position of the nodes *)
-Definition J_true_derivative_R (d : nat) (phis : list poly) (dphis : list (list poly)) : Prop :=
-  forall i j, i < d -> j < d -> forall pt : nat -> R,
-    is_derive (fun t => reval (isoF_poly d phis i) (upd pt j t)) (pt j) (reval (isoJ_poly d dphis i j) pt).
 
 Lemma derivative_pairs_In d phis dphis i j : i < d -> j < d ->
   In (pderiv j (isoF_poly d phis i), isoJ_poly d dphis i j) (derivative_pairs d phis dphis).
@@ -38,15 +32,6 @@ Theorem derivative_sound_Q d phis dphis :
 Proof.
   intros H i j Hi Hj pt. apply q_peqb_sound.
   exact (all_equal_In _ H _ _ (derivative_pairs_In d phis dphis i j Hi Hj)).
-Qed.
-
-Theorem derivative_sound_R d phis dphis :
-  all_equal (derivative_pairs d phis dphis) = true -> J_true_derivative_R d phis dphis.
-Proof.
-  intros H i j Hi Hj pt.
-  pose proof (pderiv_is_derive (isoF_poly d phis i) j pt) as D.
-  unfold reval in *.
-  rewrite (r_peqb_sound _ _ (all_equal_In _ H _ _ (derivative_pairs_In d phis dphis i j Hi Hj)) pt) in D. exact D.
 Qed.
 
 (* ------------------------------------------------------------------ the facet map is the restriction of F *)
@@ -120,9 +105,18 @@ Proof.
   unfold Qminus. reflexivity.
 Qed.
 
-(* ------------------------------------------------------------------ the real numbers as a carrier of the generated terms *)
-Definition ROps : FOps R :=
-  {| f0 := 0%R; f1 := 1%R; fadd := Rplus; fmul := Rmult; fsub := Rminus; fopp := Ropp; fdiv := Rdiv; finv := Rinv |}.
-Lemma R_field : field_theory (R:=R) (@f0 R ROps) (@f1 R ROps) (@fadd R ROps) (@fmul R ROps) (@fsub R ROps) (@fopp R ROps)
-                             (@fdiv R ROps) (@finv R ROps) eq.
-Proof. exact RealField.Rfield. Qed.
+
+(* ------------------------------------------------------------------ evaluation in the field Qc (Leibniz equality) *)
+Lemma Q2Qc_morph : ring_morph 0%Qc 1%Qc Qcplus Qcmult Qcminus Qcopp (@eq Qc) 0%Q 1%Q Qplus Qmult Qminus Qopp Qeq_bool Q2Qc.
+Proof.
+  constructor.
+  - reflexivity.
+  - reflexivity.
+  - intros x y. unfold Qcplus. apply Q2Qc_eq_iff. cbn [this Q2Qc]. rewrite !Qred_correct. reflexivity.
+  - intros x y. unfold Qcminus, Qcplus, Qcopp. apply Q2Qc_eq_iff. cbn [this Q2Qc]. rewrite !Qred_correct. reflexivity.
+  - intros x y. unfold Qcmult. apply Q2Qc_eq_iff. cbn [this Q2Qc]. rewrite !Qred_correct. reflexivity.
+  - intros x. unfold Qcopp. apply Q2Qc_eq_iff. cbn [this Q2Qc]. rewrite !Qred_correct. reflexivity.
+  - intros x y H. apply Q2Qc_eq_iff. apply Qeq_bool_eq. exact H.
+Qed.
+(* a polynomial evaluated at canonical rationals *)
+Definition qceval (p : poly) (pt : nat -> Qc) : Qc := peval Qc 0%Qc 1%Qc Qcplus Qcmult Q2Qc p pt.
